@@ -9,6 +9,17 @@
 //          the Lean driver enumerates the same lists in the same order on the model.  Every enumerated
 //          case also goes through the direct oracle here, which is what names a concrete failing input.
 //
+//   hist : object histories (harness/common/history.hpp): ONE Circuit object goes through a random sequence of
+//          public mutators (setRows, setupRows with all flag combinations, setCellX/Y/Width/Height, setCellIsFixed,
+//          setCellIsObstruction, setCellOrientation, setCellRowPolarity, setSolution, addNet) interleaved with
+//          observations computeRows(), computeRows(extra) and rows()[i].freespace(obstacles); several observations
+//          per object, the same observation twice, observation -> one mutator -> same observation.  Every
+//          observation is (a) checked by the direct oracle against the object's current public state, (b) compared
+//          with the answer of a freshly constructed Circuit rebuilt from the getters through the public setters
+//          (a copy would carry hidden members), and (c) sent to the Lean driver as one more `rows` / `fs` case with
+//          the circuit as it is now.  A failure's input is the whole history up to the observation
+//          ("history / circuit..end / mut ... / obs ... / endhistory"); --replay re-runs such an input alone.
+//
 // Direct oracle (independent of boost and of the model; integer interval reasoning / literal column
 // scan): the returned segments are pairwise disjoint, have the row's y-range and orientation, lie inside
 // the row, contain no column touched by an obstacle, cover every column of the row that no obstacle
@@ -25,6 +36,7 @@
 
 #include "common/circuit.hpp"
 #include "common/harness.hpp"
+#include "common/history.hpp"
 
 using namespace coloquinte;
 
@@ -162,6 +174,9 @@ struct Runner {
   long long nontrivCap;
   long long enumNontrivial = 0;
   explicit Runner(vh::Out &o, long long cap) : out(o), nontrivCap(cap) {}
+  // history stream: the input reported with a failure is the whole history, not the single instance
+  const std::string *inputOverride = nullptr;
+  std::string inputOr(const std::string &dflt) const { return inputOverride ? *inputOverride : dflt; }
 
   // one evaluation of the real code + the oracle; returns the answer
   std::vector<Row> eval(const std::string &id, const Row &row, const std::vector<Rectangle> &obs, bool stats) {
@@ -169,9 +184,9 @@ struct Runner {
     std::vector<Row> res = row.freespace(obs);
     bool anyTouch = false;
     std::string err = checkClauses(row, obs, res, &anyTouch);
-    if (!err.empty()) out.fail(id, err + "; returned " + rowsStr("", res), instStr(row, obs));
+    if (!err.empty()) out.fail(id, err + "; returned " + rowsStr("", res), inputOr(instStr(row, obs)));
     else if (!sameRows(res, expectedFree(row, obs)))
-      out.fail(id, "answer differs from the independently constructed free space; returned " + rowsStr("", res), instStr(row, obs));
+      out.fail(id, "answer differs from the independently constructed free space; returned " + rowsStr("", res), inputOr(instStr(row, obs)));
     if (anyTouch) {
       if (stats) {
         out.nontrivial(vh::hashStr(instStr(row, obs)));
@@ -187,14 +202,15 @@ struct Runner {
     return res;
   }
 
-  void fs(const std::string &id, const Row &row, const std::vector<Rectangle> &obs, bool stats = true) {
-    vh::setCase(id, instStr(row, obs));
+  std::vector<Row> fs(const std::string &id, const Row &row, const std::vector<Rectangle> &obs, bool stats = true) {
+    vh::setCase(id, inputOr(instStr(row, obs)));
     out.ops << "case " << id << "\nfs " << rowStr(row);
     for (auto &o : obs) out.ops << " " << rectStr(o);
     out.ops << "\n";
     std::vector<Row> res = eval(id, row, obs, stats);
     out.impl << "case " << id << "\n" << rowsStr("fs", res) << "\n";
     if (stats) out.sample(instStr(row, obs) + " -> " + rowsStr("", res));
+    return res;
   }
 
   // all lists of <= 2 grid obstacles for this row, digest only
@@ -287,9 +303,11 @@ struct Runner {
   }
 
   // Circuit::computeRows + the metamorphic "ignored cells" check
-  void circuit(const std::string &id, Circuit &c, const std::vector<Rectangle> &extra, vh::Rng &g) {
+  std::vector<Row> circuit(const std::string &id, Circuit &c, const std::vector<Rectangle> &extra, vh::Rng &g, bool ignoredCellsCheck = true) {
     std::string input = vc::circuitString(c) + "extra";
     for (auto &o : extra) input += " [" + rectStr(o) + "]";
+    uint64_t instHash = vh::hashStr(input);
+    if (inputOverride) input = *inputOverride;
     vh::setCase(id, input);
     out.evaluations++;
     out.ops << "case " << id << "\n";
@@ -340,7 +358,7 @@ struct Runner {
       if (pos < res.size()) out.fail(id, "computeRows returns more segments than the rows' free space", input);
     }
     // metamorphic: change ignored cells (movable or non-obstruction) arbitrarily
-    {
+    if (ignoredCellsCheck) {
       Circuit d = c;
       std::vector<int> w = d.cellWidth(), h = d.cellHeight(), x = d.cellX(), y = d.cellY();
       std::vector<CellOrientation> orr = d.cellOrientation();
@@ -371,7 +389,79 @@ struct Runner {
     out.count("circuit_fixed_nonobstruction_cells", nIgnFixed);
     out.count("circuit_movable_cells", nMov);
     out.count(touched ? "circuit_rows_touched" : "circuit_rows_untouched");
-    if (touched) out.nontrivial(vh::hashStr(input));
+    if (touched) out.nontrivial(instHash);
+    return res;
+  }
+
+  // placements of the fixed obstruction cells, from the raw fields (as in circuit())
+  static std::vector<Rectangle> obstructionRects(const Circuit &c) {
+    std::vector<Rectangle> obs;
+    for (int i = 0; i < c.nbCells(); ++i) {
+      if (!(c.cellIsFixed()[i] && c.cellIsObstruction()[i])) continue;
+      bool turn = vhist::turned(c.cellOrientation()[i]);
+      int w = turn ? c.cellHeight()[i] : c.cellWidth()[i], h = turn ? c.cellWidth()[i] : c.cellHeight()[i];
+      obs.emplace_back(c.cellX()[i], c.cellX()[i] + w, c.cellY()[i], c.cellY()[i] + h);
+    }
+    return obs;
+  }
+
+  // One object history.  Observation lines:  obs rows | obs rowsx (<x1> <x2> <y1> <y2>)+ | obs fs <rowIndex> (<x1> <x2> <y1> <y2>)*
+  void history(const std::string &id, const vhist::State &init, vhist::StepSource src) {
+    Circuit obj = vhist::rebuild(init);
+    const std::string initText = vhist::stateText(init);
+    std::vector<std::string> lines;
+    vhist::Tracker tr;
+    vhist::Step st;
+    vh::Rng dummy(1);
+    int j = 0;
+    out.count("hist_histories");
+    while (src(obj, st)) {
+      lines.push_back(st.text());
+      std::string input = vhist::historyText(initText, lines);
+      vh::setCase(id, input);
+      if (st.isMut) {
+        try {
+          st.mut.apply(obj);
+          tr.mut(st.mut.name());
+          out.count("hist_mutators_applied");
+        } catch (const std::exception &e) {
+          out.count(std::string("hist_mutator_threw_") + vhist::mkName(st.mut.kind) + " (counted, object unchanged)");
+        }
+        continue;
+      }
+      std::istringstream is(st.obs);
+      std::string kw, kind;
+      is >> kw >> kind;
+      std::string oid = id + "_" + std::to_string(j++);
+      long long idx = 0;
+      if (kind == "fs" && !(is >> idx)) idx = 0;
+      std::vector<Rectangle> extra;
+      int r4[4];
+      while (is >> r4[0] >> r4[1] >> r4[2] >> r4[3]) extra.emplace_back(r4[0], r4[1], r4[2], r4[3]);
+      if (kind == "fs" && obj.nbRows() == 0) { out.count("hist_obs_fs_skipped_no_rows"); continue; }
+      for (auto &k : tr.obs(st.obs)) out.count(k);
+      out.count("hist_obs_" + kind);
+      inputOverride = &input;
+      std::string before = vc::circuitString(obj);
+      vhist::State s0 = vhist::snapshot(obj);
+      std::string got, fresh;
+      if (kind == "fs") {
+        size_t ri = (size_t)(idx < 0 ? -idx : idx) % obj.nbRows();
+        std::vector<Rectangle> obs = extra, cellObs = obstructionRects(obj);
+        obs.insert(obs.end(), cellObs.begin(), cellObs.end());
+        got = rowsStr("", fs(oid, obj.rows()[ri], obs, false));
+        Circuit twin = vhist::rebuild(s0);
+        fresh = rowsStr("", twin.rows()[ri].freespace(obs));
+      } else {
+        got = rowsStr("", circuit(oid, obj, extra, dummy, false));
+        Circuit twin = vhist::rebuild(s0);
+        fresh = rowsStr("", twin.computeRows(extra));
+      }
+      if (got != fresh)
+        out.fail(oid, "object history: the object answers" + got + " but a freshly constructed circuit with the same observable state answers" + fresh, input);
+      if (vc::circuitString(obj) != before) out.fail(oid, "object history: the observation changed the observable state of the circuit", input);
+      inputOverride = nullptr;
+    }
   }
 };
 
@@ -470,9 +560,27 @@ int main(int argc, char **argv) {
   vh::installCrashHandler(&out);
   out.rule = "instance = (row, obstacle list) for Row::freespace or (circuit, extra obstacles) for Circuit::computeRows; "
              "non-trivial = at least one obstacle touches a column of the row (resp. some row of the circuit loses space); "
-             "explicit and random instances are distinct by canonical text, enumerated instances are distinct by construction";
+             "explicit and random instances are distinct by canonical text, enumerated instances are distinct by construction; "
+             "object-history stream: every observation of a history (mutators and observations interleaved on one Circuit object) "
+             "is one more instance, compared in addition with a freshly rebuilt circuit of the same observable state";
   Runner r(out, 3000000);
   long long k = 0;
+  // --replay of a recorded object history: only that history
+  if (!a.replay.empty()) {
+    std::string input = vhist::replayInput(a.replay);
+    if (vhist::isHistoryText(input)) {
+      vhist::History h;
+      if (vhist::parseHistory(input, h)) {
+        r.history("replay", h.init, vhist::recorded(h.steps));
+        out.count("replayed_history");
+      } else {
+        out.notes.push_back("replay: the history in the input field of " + a.replay + " could not be parsed");
+        out.count("replay_unparsed");
+      }
+      out.finish();
+      return 0;
+    }
+  }
   // corpus: lines "minX maxX minY maxY orient (ox1 ox2 oy1 oy2)*"
   if (!a.corpus.empty()) {
     for (auto &ln : vh::readLines(a.corpus + "/instances.txt")) {
@@ -572,6 +680,40 @@ int main(int argc, char **argv) {
       r.circuit("c" + std::to_string(i), c, extra, g);
       out.count("circuit_small");
     }
+  }
+  // 5. object histories: mutators and observations interleaved on one Circuit object
+  long long nh = a.thorough() ? 40000 : (a.search() ? 12000 : 4000);
+  for (long long i = 0; i < nh; ++i) {
+    vh::Rng g = vh::Rng::forCase(a.seed, 3000000000ll + i);
+    std::vector<Rectangle> unused;
+    vhist::State init;
+    if (i % 4 == 3) {
+      vc::GenOpts o;
+      o.nets = (i % 8 == 7);
+      init = vhist::snapshot(vc::genCircuit(g, o));
+      out.count("hist_init_common_generator");
+    } else {
+      init = vhist::snapshot(smallCircuit(g, unused));
+      out.count("hist_init_small");
+    }
+    vhist::MutProfile prof;
+    auto genObs = [](vh::Rng &gg, const Circuit &c) {
+      vhist::Box b = vhist::boxOf(c);
+      int m = gg.range(0, 19);
+      std::ostringstream os;
+      os << "obs " << (m < 8 ? "rows" : (m < 15 ? "rowsx" : "fs"));
+      if (m >= 15) os << " " << gg.range(0, 7);
+      int ne = m < 8 ? 0 : (m < 15 ? gg.range(1, 3) : gg.range(0, 2));
+      for (int e = 0; e < ne; ++e) {
+        auto xr = relRange(gg, b.minX, std::max(b.minX + 1, b.maxX), 12);
+        auto yr = relRange(gg, b.minY, std::max(b.minY + 1, b.maxY), 12);
+        os << " " << xr.first << " " << xr.second << " " << yr.first << " " << yr.second;
+      }
+      return os.str();
+    };
+    int rounds = g.range(3, 8);
+    auto plan = std::make_shared<vhist::Plan>(g, prof, genObs, rounds);
+    r.history("h" + std::to_string(i), init, [plan](const Circuit &c, vhist::Step &st) { return plan->next(c, st); });
   }
   out.finish();
   return 0;
